@@ -16,7 +16,9 @@ RULE = ("cases = (generated schema accepted by the C++ full generator, composite
         "an optional, union, limited array, a field after a dynamic field or a nested composite; distinct = "
         "distinct hash of (schema text, type, value, byte order, input)")
 ASSUME = ["g++ 12, x86-64, little-endian host (native == little)", "NaN floats are not generated",
-          "greedy tails are constructed to end aligned"]
+          "greedy tails are constructed to end aligned",
+          "buffers handed to the C++ codec are 8-aligned heap blocks (its alignment arithmetic works on addresses)",
+          "arrays bound to a sizer hold no more elements than the sizer type can count"]
 
 
 class Campaign(cppcamp.FullCampaign):
